@@ -30,6 +30,8 @@ def r1_symbol_provenance(ctx, m, me) -> None:
     from ..tmpl import T, tfind
     sites = 0
     for name, fn in me.methods.items():
+        if ctx.canon.unknown_helper(me, name):
+            continue        # a private helper the tables do not know: seen through (with its arguments) at every call site
         try:
             ps = ctx.paths(f"{EXP}.ModelExport.{name}", bound=8192)
         except Exception as e:      # too many paths: fall back to the canonical body
@@ -39,7 +41,9 @@ def r1_symbol_provenance(ctx, m, me) -> None:
             for x in list(p.effects) + ([p.value] if p.value is not None else []):
                 for c, e in tfind(x, T("_mangle_name(E_n, E_name)")):
                     n_, nm_ = unold(e["E_n"]), unold(e["E_name"])
-                    key = (n_, nm_, getattr(c, "lineno", 0))
+                    # (one site per operation kind: statements seen through a helper all carry the call's line)
+                    arm = tuple(u(t.args[1]) for t, k in p.tests if k and isinstance(t, ast.Call) and u(t.func) == "isinstance" and len(t.args) == 2)
+                    key = (n_, nm_, getattr(c, "lineno", 0), arm[-1:] )
                     if key in seen:
                         continue
                     seen.add(key)
